@@ -645,6 +645,40 @@ def class_tables_lit(name, ot, dt):
     return f"Definition {name} : ktab := ({o},{d}).\n"
 
 
+HEADER_METRIC = """From Coq Require Import List Bool ZArith QArith Qabs.
+Import ListNotations.
+From PD Require Import Model.Grid Model.Tracking.
+Local Open Scope Q_scope.
+
+(* (grid or None, position a, position b, cdist entry, radius a + radius b, a.overlaps(b)) *)
+Definition mcase := (option grid * list Q * list Q * Q * Q * bool)%type.
+Definition magree (c : mcase) : bool :=
+  let '(g, p, q, d, rr, o) := c in
+  let d2 := match g with Some g => dist2 g p q | None => edist2 p q end in
+  (* the implementation's distance is the correctly rounded square root of d2 (coarse dyadic inputs) *)
+  Qle_bool (Qabs (d * d - d2)) (d2 * (1 # 1125899906842624))
+  (* overlap: distance < r1 + r2, compared on squares *)
+  && Bool.eqb o (Qlt_b 0 rr && Qlt_b d2 (rr * rr)).
+"""
+
+
+def metric_case_lits(hist, ov, D, limit=4):
+    out = []
+    for (a, b) in sorted(D):
+        if len(out) >= limit:
+            break
+        da, db = hist["frames"][a[0]][a[1]], hist["frames"][b[0]][b[1]]
+        if hist["grid"] is None:
+            g = "None"
+        else:
+            g = "(Some " + vlib.listlit(hist["grid"], lambda ax: f"(Build_axis {vlib.zlit(ax[2])} {vlib.qlit(ax[0])} "
+                                                                  f"{vlib.qlit(ax[1])} {vlib.blit(ax[3])})") + ")"
+        rr = Fraction(da[-1]) + Fraction(db[-1])
+        out.append(f"({g},{vlib.listlit(da[:-1], vlib.qlit)},{vlib.listlit(db[:-1], vlib.qlit)},"
+                   f"{vlib.qlit(D[(a, b)])},{vlib.qlit(rr)},{vlib.blit(ov[(a, b)])})")
+    return out
+
+
 # ---------------------------------------------------------------------------------------------
 # the check (shared by C06 and C07; the tie to /repo is the same correspondence)
 # ---------------------------------------------------------------------------------------------
@@ -710,6 +744,7 @@ def process(item):
     else:
         lit = gcase_lit(hist, ov, D, outs, full)
     return {"lit": lit, "fails": fails, "sizes": sizes, "ties": ties,
+            "metric": metric_case_lits(hist, ov, D) if pid == "C07" and not item.get("lat") else [],
             "clean": inframe_nonoverlap(hist, ov), "raised": [r["raised"] for _, r in outs if r["raised"]],
             "ntracks": [len(r["tracks"]) if r["tracks"] is not None else -1 for _, r in outs]}
 
@@ -831,6 +866,13 @@ def run_check(ctx, pid, deps):
     bad_l = vlib.run_cases(ctx, "lat", HEADER + tabtext, [r["lit"] for r in results[:len(lat)]], "lagree", shard=300)
     bad_g = vlib.run_cases(ctx, "gen", HEADER, [r["lit"] for r in results[len(lat):]], "gagree", shard=100)
     bad = list(bad_l) + [len(lat) + b for b in bad_g]
+    if pid == "C07":
+        mlits = [m for r in results for m in r["metric"]][:ctx.scale(1500, 12000)]
+        bad_m = vlib.run_cases(ctx, "metric", HEADER_METRIC, mlits, "magree", shard=150)
+        ctx.count("metric_cases(distance/overlap table vs Model/Grid.v)", "pairs", len(mlits))
+        if bad_m:
+            ctx.broken.append(f"metric: distance / overlap computed by the implementation differ from the Grid model "
+                              f"on {len(bad_m)} pair(s), first: {mlits[bad_m[0]][:300]}")
     if bad:
         ctx.broken.append(f"correspondence from_emulsion_time_course: model and implementation differ on {len(bad)} "
                           f"case(s), first: {items[bad[0]]['hist']} kind={items[bad[0]]['kind']}")
